@@ -26,7 +26,7 @@ RULE = ('Tables over the configured output list restricted to what can be an inp
         'column, a supplied carrier is a valid PDS string; generated output_data_elements lists as well as the packaged one; '
         '{latin_1, cp500, cp037} x blocked/unblocked; function entry points and cli_run of both tools on real files (plus mideu extract as a second extractor for latin_1 / cp500 files). Oracle: same '
         'number of rows in the same order; every non-empty input cell comes back equal (text exactly, numbers numerically, '
-        'date-times after parsing both sides). Tables of >= 1100 rows (generated rows repeated) go through the same comparison. Non-trivial = >= 2 rows or a cell with a CSV metacharacter; distinct by digest.')
+        'date-times after parsing both sides). Unblocked files that look blocked (0x40 0x40 at bytes 1012-1013 and 2026-2027, from long runs of the 0x40 character in DE72) through the command entry points. Tables of >= 1100 rows (generated rows repeated) go through the same comparison. Non-trivial = >= 2 rows or a cell with a CSV metacharacter; distinct by digest.')
 ASSUMPTIONS = ['an empty input cell means "absent"; the output may hold a derived value there (e.g. DE48 built from PDS columns)',
                'cells contain no control characters (CSV is a text format; a bare CR cannot survive lineterminator="\\n")',
                'python-dateutil is installed, so date cells go through dateutil.parser.parse',
@@ -262,6 +262,49 @@ def hyp_tables(ctx, n, cli, many=False):
         shutil.rmtree(scratch, ignore_errors=True)
 
 
+@st.composite
+def lookalike_tables(draw):
+    """unblocked files whose bytes 1012-1013 (and 2026-2027) are both 0x40: inspection may call such a file blocked
+    (the inspection property allows it), the tools must go by what they are told (--no1014blocking)"""
+    codec = draw(st.sampled_from(ENCS))
+    fill = bytes([0x40]).decode(codec)          # blank under the EBCDIC codecs, '@' under the ASCII family
+    cols = ['MTI', 'DE2', 'DE72', 'DE3', 'DE43'] if draw(st.booleans()) else ['MTI', 'DE72', 'DE54']
+    config = {'bit_config': PKG['bit_config'], 'output_data_elements': cols}
+    rows = []
+    for i in range(draw(uniform(2, 5))):
+        head = draw(st.text(alphabet='ABCXYZ019', min_size=1, max_size=3))
+        tail = draw(st.text(alphabet='ABCXYZ019', min_size=1, max_size=3))
+        n = draw(st.sampled_from([999, 998, 990]))
+        row = {'MTI': draw(gen_iso.MTI), 'DE72': head + fill * (n - len(head) - len(tail)) + tail}
+        if 'DE2' in cols and draw(st.booleans()):
+            row['DE2'] = draw(cell_for('DE2', codec))
+        rows.append(row)
+    return codec, config, cols, rows, False
+
+
+def hyp_lookalike(ctx, n):
+    scratch = tempfile.mkdtemp(prefix='cardutil-verif-c20-')
+    try:
+        def body(v):
+            codec, config, in_cols, rows, blocked = v
+            res = check(codec, config, in_cols, rows, blocked, scratch, True)
+            looks = False
+            mid = os.path.join(scratch, 'mid.ipm')
+            if os.path.exists(mid):
+                with open(mid, 'rb') as f:
+                    data = f.read()
+                looks = data[1012:1014] == b'@@' and (len(data) < 2028 or data[2026:2028] == b'@@')
+                os.unlink(mid)
+            ctx.case(key=harness.digest((codec, in_cols, rows)), nontrivial=looks,
+                     labels=['lookalike', 'unblocked-file-looks-blocked' if looks else 'unblocked-file-looks-unblocked', 'codec:' + codec])
+            if res:
+                ctx.fail(res[0], {'codec': codec, 'config': config, 'in_cols': in_cols, 'rows': rows, 'blocked': blocked, 'cli': True}, res[1])
+        harness.drive(ctx, lookalike_tables(), body, n, salt='lookalike')
+    finally:
+        shutil.rmtree(scratch, ignore_errors=True)
+    ctx.floor('unblocked-file-looks-blocked', 0.5, 'lookalike')
+
+
 def tasks(tier, seed):
     full = tier == 'thorough'
     t = []
@@ -271,6 +314,7 @@ def tasks(tier, seed):
         t.append(('hyp_tables', dict(n=30 if not full else 250, cli=True)))
     t.append(('hyp_tables', dict(n=2 if not full else 12, cli=False, many=True)))
     t.append(('hyp_tables', dict(n=2 if not full else 12, cli=True, many=True)))
+    t.append(('hyp_lookalike', dict(n=25 if not full else 150)))
     return t
 
 
